@@ -120,8 +120,8 @@ class Malformed(Harness):
             ENGINE.assume(nv.t >= 33); ENGINE.assume(nv.t <= 126)
             if kind in ("int", "oint"):
                 bad = z3.Or(nv.t < 48, nv.t > 57)
-                if j == 0:
-                    bad = z3.And(bad, nv.t != 43, nv.t != 45)        # a leading sign is legal
+                if j == 0 and skel["rows"][r][c] > 1:
+                    bad = z3.And(bad, nv.t != 43, nv.t != 45)        # a leading sign is legal when digits follow (a bare sign is not a number)
                 if kind == "oint" and skel["rows"][r][c] == 1:
                     bad = z3.And(bad, nv.t != 46)
                 ENGINE.assume(bad)
